@@ -172,6 +172,14 @@ func runWorker(id, tier string, lo, hi int, out string) int {
 	return 0
 }
 
+// outDir is where replays (and crash logs of workers) go.
+func outDir() string {
+	if d := os.Getenv("VERIF_SCRATCH_OUT"); d != "" {
+		return filepath.Join(d, "replays")
+	}
+	return filepath.Join(verifDir(), "replays")
+}
+
 func writeJSON(path string, v any) {
 	b, err := json.MarshalIndent(v, "", " ")
 	if err != nil {
@@ -292,6 +300,7 @@ func runParent(id, tier string) int {
 	merged := &explore.Result{}
 	var hangs []string
 	infra := false
+	retried := map[int]bool{}
 	var mu sync.Mutex
 	var wg sync.WaitGroup
 	for slot := 0; slot < n; slot++ {
@@ -299,6 +308,7 @@ func runParent(id, tier string) int {
 		go func(slot int) {
 			defer wg.Done()
 			for r := range queue {
+			again:
 				out := filepath.Join(tmp, fmt.Sprintf("w%d-%d.json", slot, r.lo))
 				bin := self
 				switch scs[r.lo].Flavour {
@@ -317,7 +327,7 @@ func runParent(id, tier string) int {
 				cmd := exec.Command(bin, "worker", id, tier, strconv.Itoa(r.lo), strconv.Itoa(r.hi), out)
 				cmd.Stdout = os.Stderr
 				var errBuf bytes.Buffer
-				tail := &tailWriter{max: 16 << 10}
+				tail := &tailWriter{max: 256 << 10}
 				cmd.Stderr = io.MultiWriter(os.Stderr, tail)
 				cmd.Env = append(os.Environ(), "GOMAXPROCS=2", fmt.Sprintf("VERIF_DEADLINE_UNIXMS=%d", deadline.UnixMilli()))
 				if scs[r.lo].Flavour == "race" {
@@ -361,7 +371,19 @@ func runParent(id, tier string) int {
 						mu.Unlock()
 						continue
 					}
-					fmt.Fprintf(os.Stderr, "INFRA: worker for scenarios %d..%d failed: %v / %v\n", r.lo, r.hi, err, rerr)
+					// keep what the worker said, and give the chunk one more try: a worker that dies
+					// once and completes on the second attempt was a victim of the machine, not of the
+					// code under test (a reproducible death is reported as an infrastructure failure)
+					crashLog := filepath.Join(outDir(), fmt.Sprintf("%s-worker-crash-%d.log", id, r.lo))
+					os.MkdirAll(filepath.Dir(crashLog), 0o755)
+					os.WriteFile(crashLog, []byte(tail.String()), 0o644)
+					if !retried[r.lo] {
+						retried[r.lo] = true
+						fmt.Fprintf(os.Stderr, "note: worker for scenarios %d..%d died (%v / %v), stderr tail in %s; retrying once\n", r.lo, r.hi, err, rerr, crashLog)
+						mu.Unlock()
+						goto again
+					}
+					fmt.Fprintf(os.Stderr, "INFRA: worker for scenarios %d..%d failed twice: %v / %v (stderr tail in %s)\n", r.lo, r.hi, err, rerr, crashLog)
 					infra = true
 					mu.Unlock()
 					continue
